@@ -71,6 +71,35 @@ def make_case(r, thorough):
     return p, om, tags
 
 
+def composed_case(r):
+    """a pulse PRODUCED BY COMPOSITION (concatenation of 2-3 pulses with overlapping but different noise-operator
+    sets, control matrices cached so that the concatenation rule is used): the control matrix the package returns for
+    it must equal the defining integral of the sequenced pulse as well"""
+    d = 2
+    nparts = int(r.integers(2, 4))
+    shared = gen.herm(r, d)
+    extras = [gen.herm(r, d) for _ in range(nparts)]
+    om = np.concatenate([r.uniform(-3, 3, 3), [0.0]])
+    parts = []
+    for j in range(nparts):
+        G = int(r.integers(1, 3))
+        H_c = [[gen.herm(r, d), r.standard_normal(G), 'c0'], [gen.herm(r, d), r.standard_normal(G), 'c1']]
+        H_n = [[shared, np.ones(G) * 0.7, 'shared']]
+        if j != int(r.integers(0, nparts)):          # this pulse has an operator the others lack
+            H_n.append([extras[j], np.ones(G) * (1.0 + 0.5 * j), 'extra%d' % j])
+        q = ff.PulseSequence(H_c, H_n, r.uniform(0.3, 1.2, G))
+        # same control operators in all parts so that they are matched by value
+        parts.append(q)
+    c_ops = parts[0].c_opers
+    parts = [ff.PulseSequence(list(zip(c_ops, q.c_coeffs, q.c_oper_identifiers)),
+                              list(zip(q.n_opers, q.n_coeffs, q.n_oper_identifiers)), q.dt) for q in parts]
+    for q in parts:
+        q.cache_filter_function(om)
+    cat = ff.concatenate(parts, omega=om, calc_filter_function=True)
+    return cat, parts, om, dict(d=d, G=len(cat.dt), amp='composed', dt='generic', noise='partially-shared', sens='constant',
+                         basis='ggm', freq='generic', parts=nparts)
+
+
 def coq_case(name, p, om, B, F, big):
     scaleB = max(np.abs(B).max(), 1e-300)
     scaleF = max(np.abs(F).max(), 1e-300)
@@ -132,6 +161,22 @@ def run(ctx):
     failures, samples = [], []
     for i in range(n):
         p, om, tags = make_case(r, ctx.thorough)
+        if i % 7 == 3:
+            # composed pulse: the control matrix RETURNED BY THE PACKAGE for the concatenated object (cached by the
+            # concatenation rule) against the defining integral; the fresh copy below then goes the from-scratch way
+            cat, parts, om, tags = composed_case(r)
+            Bc = cat.get_control_matrix(om)
+            Fc = cat.get_filter_function(om)
+            Fgc = gen.fresh(cat).get_filter_function(om, which='generalized')
+            inpc = dict(tags=tags, omega=om, c_opers=cat.c_opers, c_coeffs=cat.c_coeffs, n_opers=cat.n_opers,
+                        n_coeffs=cat.n_coeffs, dt=cat.dt, basis=cat.basis.view(np.ndarray),
+                        parts=[dict(c_opers=q.c_opers, c_coeffs=q.c_coeffs, c_ids=list(q.c_oper_identifiers),
+                                    n_opers=q.n_opers, n_coeffs=q.n_coeffs, n_ids=list(q.n_oper_identifiers), dt=q.dt)
+                               for q in parts])
+            for obs, det in property_predicates(cat, om, Bc, Fc, Fgc, tags):
+                failures.append(dict(kind='prop', observable='composed/' + obs, signature='c01-composed-' + obs,
+                                     detail='pulse returned by concatenate: ' + det, input=inpc))
+            p = gen.fresh(cat)
         q = gen.fresh(p)
         if i % 2:
             B = q.get_control_matrix(om, cache_intermediates=True)
@@ -193,6 +238,19 @@ def replay(ctx, rep):
         if isinstance(x, dict):
             return np.array(x['re']) + 1j * np.array(x['im'])
         return np.array(x)
+    if inp.get('parts'):
+        om = arr(inp['omega'])
+        parts = [ff.PulseSequence(list(zip(arr(q['c_opers']), arr(q['c_coeffs']), q['c_ids'])),
+                                  list(zip(arr(q['n_opers']), arr(q['n_coeffs']), q['n_ids'])), arr(q['dt']))
+                 for q in inp['parts']]
+        for q in parts:
+            q.cache_filter_function(om)
+        cat = ff.concatenate(parts, omega=om, calc_filter_function=True)
+        bad = property_predicates(cat, om, cat.get_control_matrix(om), cat.get_filter_function(om),
+                                  gen.fresh(cat).get_filter_function(om, which='generalized'), inp.get('tags', {}))
+        if bad:
+            return False, 'replay (pulse returned by concatenate) reproduces: %s' % bad
+        return True, 'replay: property-level predicates hold on the concatenated pulse'
     basis = ff.Basis(arr(inp['basis']))
     p = ff.PulseSequence([[o, c, 'c%d' % i] for i, (o, c) in enumerate(zip(arr(inp['c_opers']), arr(inp['c_coeffs'])))],
                          [[o, c, 'n%d' % i] for i, (o, c) in enumerate(zip(arr(inp['n_opers']), arr(inp['n_coeffs'])))],
